@@ -504,6 +504,13 @@ theorem toStrDG_view (d : DataG T) : toStrDG Q d = toStrD (viewD view d) := by
   | refs ps => rfl
   | nothing => rfl
 
+theorem toPatDG_view (d : DataG T) : toPatDG Q d = toPatD (viewD view d) := by
+  cases d with
+  | value v => simp only [toPatDG, toPatD, viewD_value, hf.asStr]; cases view v <;> rfl
+  | ref p => simp only [toPatDG, toPatD, viewD_ref, viewP_inner, hf.asStr]; cases view p.inner <;> rfl
+  | refs ps => rfl
+  | nothing => rfl
+
 theorem presentOfG_view (d : DataG T) : presentOfG d = presentOf (viewD view d) := by
   cases d <;> simp [presentOfG, presentOf]
 
@@ -603,10 +610,10 @@ theorem TestFunction.processG_view : ∀ (f : TestFunction) (d : DataG T),
   | .count a, d => by simp only [TestFunction.processG, TestFunction.process, countFnG_view hf, FnArg.processG_view a d]
   | .value a, d => by simp only [TestFunction.processG, TestFunction.process, valueFnG_view hf, FnArg.processG_view a d]
   | .match a b, d => by
-      simp only [TestFunction.processG, TestFunction.process, toStrDG_view hf, FnArg.processG_view a d, FnArg.processG_view b d]
+      simp only [TestFunction.processG, TestFunction.process, toStrDG_view hf, toPatDG_view hf, FnArg.processG_view a d, FnArg.processG_view b d]
       split <;> simp_all [dboolG_view hf]
   | .search a b, d => by
-      simp only [TestFunction.processG, TestFunction.process, toStrDG_view hf, FnArg.processG_view a d, FnArg.processG_view b d]
+      simp only [TestFunction.processG, TestFunction.process, toStrDG_view hf, toPatDG_view hf, FnArg.processG_view a d, FnArg.processG_view b d]
       split <;> simp_all [dboolG_view hf]
   | .custom name args, d => by
       simp only [TestFunction.processG, TestFunction.process, viewD_value, hf.ext, FnArg.valuesG_view args d]
